@@ -130,6 +130,12 @@ func (v Value) LessCase(b Value, caseSensitive bool) bool {
 		return false
 	}
 	if v.kind == Number {
+		if v.num != v.num || b.num != b.num {
+			// NaN sorts before every other number and equals only NaN;
+			// with plain < it is "not less" both ways, that is equal to
+			// every number and inside every range
+			return v.num != v.num && b.num == b.num
+		}
 		return v.num < b.num
 	}
 	if v.kind == String {
